@@ -24,7 +24,9 @@ def m_time(it, a, k):
 
 
 def m_localtime(it, a, k):
-    return LocalTime(it.ctx.fresh("int", "localtime"))
+    v = it.ctx.fresh("int", "localtime")
+    it.ctx.ghost["localtime"] = v
+    return LocalTime(v)
 
 
 class LocalTime:
@@ -80,7 +82,7 @@ def _aw_term(it, v):
     if isinstance(v, AwVer):
         return v.term
     if isinstance(v, awesomeversion.AwesomeVersion):
-        return z3.StringVal(str(v))
+        return lift(str(v))[1]
     raise Unsupported("AwesomeVersion compared with a non-version")
 
 
@@ -88,14 +90,16 @@ def _aw_literal_facts(it, t):
     """Facts about a literal version string, computed with the real library."""
     import awesomeversion
 
-    if not z3.is_string_value(t):
+    from .core import lit_value
+
+    s = lit_value(t)
+    if s is None:
         return None
-    s = t.as_string()
     lb = lawbook(it.ctx)
     if not lb._once("awlit", t):
         return s
     a = awesomeversion.AwesomeVersion(s)
-    it.ctx.add_fact(aw_string(t) == z3.StringVal(a.string))
+    it.ctx.add_fact(aw_string(t) == lift(a.string)[1])
     it.ctx.add_fact(aw_known(t) == z3.BoolVal(a.strategy != awesomeversion.AwesomeVersionStrategy.UNKNOWN))
     import re
 
@@ -376,6 +380,9 @@ def vol_ctor(cls):
 
 def install_vol(it):
     import voluptuous as vol
+    from voluptuous.humanize import humanize_error
+
+    it.models[id(humanize_error)] = ModelFn("humanize_error", lambda it2, a, k: ops.opaque_str(it2, "humanize"))
 
     for cls in (vol.All, vol.Any, vol.Coerce, vol.Range, vol.In, vol.Schema, vol.Object):
         it.models[id(cls)] = ModelFn(f"vol.{cls.__name__}", vol_ctor(cls))
@@ -406,7 +413,6 @@ def install_spec_prims(it):
             return True
         if kind != "str":
             return False
-        lawbook(it2.ctx).int_literal_facts(t)
         return ops.mk("bool", py_int_ok(t))
 
     def s_int_of(it2, s):
@@ -434,7 +440,7 @@ def install_spec_prims(it):
 
     def s_is_hex(it2, s, n):
         kind, t = lift(s)
-        return ops.mk("bool", z3.And(z3.Length(t) == n, py_unhex_ok(t)))
+        return ops.mk("bool", z3.And(lawbook(it2.ctx).length(t) == n, py_unhex_ok(t)))
 
     def s_version(it2, s):
         kind, t = lift(s)
@@ -451,6 +457,20 @@ def install_spec_prims(it):
     it.models[id(prims.version_ge_14)] = ModelFn("version_ge_14", sym1(prims.version_ge_14, s_version))
     it.models[id(prims.comma_parts)] = ModelFn("comma_parts", sym1(prims.comma_parts, s_comma))
 
+    def s_line_fields(it2, s):
+        r = it2.call(it2.getattr(s, "rstrip"), [], {})
+        return it2.call(it2.getattr(r, "split"), [";"], {})
+
+    def s_carriable(it2, p):
+        from .laws import py_rstrip
+
+        kind, t = lift(p)
+        lb = lawbook(it2.ctx)
+        return ops.mk("bool", z3.And(z3.Not(lb.contains(t, lift(";")[1])), lb.rstrip(t) == t))
+
+    it.models[id(prims.line_fields)] = ModelFn("line_fields", sym1(prims.line_fields, s_line_fields))
+    it.models[id(prims.no_semicolon_clean_end)] = ModelFn("carriable", sym1(prims.no_semicolon_clean_end, s_carriable))
+
 
 py_version_ge14 = z3.Function("py_version_ge14", STR, BOOL)
 
@@ -459,7 +479,7 @@ def version_ge_14_term(it, t):
     """'s is a usable version >= 1.4' in terms of the AwesomeVersion abstraction:
     is_version(s) succeeds  <=>  not (AwesomeVersion("1.4") > AwesomeVersion(str(s).strip())) and no exception."""
     st = lawbook(it.ctx).strip(t)
-    ref = z3.StringVal("1.4")
+    ref = lift("1.4")[1]
     _aw_literal_facts(it, ref)
     _aw_literal_facts(it, st)
     _aw_pair_law(it, ref, st)
